@@ -228,3 +228,87 @@ def decide_table(body, sym, names, spec, label, select=None, assume=None):
             if len(bad) >= 4:
                 break
     return not bad, {"orderings": n, "paths": len(sel), "counterexamples": bad}
+
+
+def _atom_key(a):
+    if a[0] == "cmp":
+        return "%s %s %s" % (render(a[2]), a[1], render(a[3]))
+    if a[0] == "opaque":
+        return a[1]
+    return None
+
+
+def decide_bool(body, sym, names, spec, norm=None, label=None):
+    """Functions whose result is a boolean combination of side-effect-free tests (is_some, is_empty, ==, …), each treated
+    as an independent boolean.  names: [(regex on the rendered test, short name)] — a test that matches none makes the
+    check fail (the function looks at something the specification does not mention).  spec: {name: bool} -> result."""
+    try:
+        ps = paths(body, sym)
+    except NotComparisonOnly as e:
+        return False, "not a loop-free function: %s" % e
+    keys = {}
+
+    def reg(a):
+        while a[0] == "not":
+            a = a[1]
+        if a[0] == "const":
+            return
+        k = _atom_key(a)
+        if k is None:
+            return
+        kk = norm(k) if norm else k
+        for rx, nm in names:
+            if re.search(rx, kk):
+                keys[k] = nm
+                return
+        keys[k] = None
+    for conds, ret in ps:
+        for a, _ in conds:
+            if a[0] == "switch":
+                reg(("opaque", "%s" % a[1]))
+            else:
+                reg(a)
+        if ret is not None and label is None:
+            reg(atom(ret))
+    unknown = sorted(k for k, v in keys.items() if v is None)
+    if unknown:
+        return False, {"tests_outside_the_specification": [u[:160] for u in unknown]}
+    snames = sorted(set(keys.values()))
+    if len(snames) > 10:
+        return False, "too many tests"
+
+    def val(a, env):
+        neg = False
+        while a[0] == "not":
+            a, neg = a[1], not neg
+        if a[0] == "const":
+            v = a[1]
+        else:
+            v = env[keys[_atom_key(a)]]
+        return (not v) if neg else v
+    bad = []
+    n = 0
+    for vals in itertools.product((False, True), repeat=len(snames)):
+        env = dict(zip(snames, vals))
+        n += 1
+        got = set()
+        for conds, ret in ps:
+            ok = True
+            for a, t in conds:
+                if a[0] == "switch":
+                    # a two-way variant test used as a boolean: value 1 / otherwise = true
+                    v = env[keys[a[1]]]
+                    if (a[2] in (1, None)) != v:
+                        ok = False
+                        break
+                elif val(a, env) != t:
+                    ok = False
+                    break
+            if ok:
+                got.add(label(render(ret)) if label else val(atom(ret), env))
+        want = spec(env)
+        if got != {want}:
+            bad.append({"tests": env, "function": sorted(map(str, got)), "specification": want})
+            if len(bad) >= 4:
+                break
+    return not bad, {"assignments": n, "paths": len(ps), "counterexamples": bad}
